@@ -193,6 +193,8 @@ func (m *Muxer) AddChunk(id ChunkID, data []byte) error {
 		m.exifData = data
 	case FourCCXMP:
 		m.xmpData = data
+	default:
+		return fmt.Errorf("mux: unsupported chunk %s (only ICCP, EXIF and XMP can be added)", container.FourCCString(uint32(id)))
 	}
 	return nil
 }
@@ -261,6 +263,12 @@ func (m *Muxer) validate() error {
 	// Check that frame dimensions fit within the canvas.
 	canvasW, canvasH := m.canvasSize()
 	for i, f := range m.frames {
+		// An ANMF frame stores each offset halved in 24 bits.
+		if animated && (f.opts.OffsetX < 0 || f.opts.OffsetY < 0 ||
+			f.opts.OffsetX/2 >= 1<<24 || f.opts.OffsetY/2 >= 1<<24) {
+			return fmt.Errorf("%w: frame %d offset (%d,%d) out of range",
+				ErrMuxValidation, i, f.opts.OffsetX, f.opts.OffsetY)
+		}
 		fw, fh := frameDimensions(f.data)
 		if fw == 0 || fh == 0 {
 			continue // could not parse dimensions, skip check
